@@ -355,7 +355,23 @@ impl<'b, C: Autocomplete + Help> Rig<'b, C> {
     }
 
     pub fn byte(&mut self, b: u8) -> Result<(), SinkErr> {
-        match self.proc.pform {
+        self.byte_as::<C>(b)
+    }
+
+    /// the command set is a type parameter of each `process_byte` call, not of the Cli: an application may pass another one
+    pub fn byte_set(&mut self, set: crate::sets::SetKind, b: u8) -> Result<(), SinkErr> {
+        use crate::sets::SetKind;
+        self.proc.parse = set.parse_fn();
+        match set {
+            SetKind::Raw => self.byte_as::<RawCommand<'static>>(b),
+            SetKind::FixA => self.byte_as::<crate::sets::FixA<'static>>(b),
+            SetKind::FixG => self.byte_as::<crate::sets::FixG<'static>>(b),
+            SetKind::FixU => self.byte_as::<crate::sets::FixU<'static>>(b),
+        }
+    }
+
+    pub fn byte_as<D: Autocomplete + Help>(&mut self, b: u8) -> Result<(), SinkErr> {
+        match self.proc.pform & 0x0f {
             1 => {
                 let p = &mut self.proc;
                 let mut pr = RawCommand::processor(|cli: &mut CliHandle<'_, MonSink, SinkErr>, raw: RawCommand<'_>| match p.process(cli, raw) {
@@ -363,15 +379,15 @@ impl<'b, C: Autocomplete + Help> Rig<'b, C> {
                     Err(ProcessError::WriteError(e)) => Err(e),
                     Err(ProcessError::ParseError(_)) => Ok(()),
                 });
-                self.cli.process_byte::<C, _>(b, &mut pr)
+                self.cli.process_byte::<D, _>(b, &mut pr)
             }
             2 => {
                 CUR_PROC.with(|c| c.set(&mut self.proc as *mut RecProc));
-                let r = self.cli.process_byte::<C, _>(b, &mut fn_handler);
+                let r = self.cli.process_byte::<D, _>(b, &mut fn_handler);
                 CUR_PROC.with(|c| c.set(core::ptr::null_mut()));
                 r
             }
-            _ => self.cli.process_byte::<C, _>(b, &mut self.proc),
+            _ => self.cli.process_byte::<D, _>(b, &mut self.proc),
         }
     }
 
